@@ -273,6 +273,11 @@ def run(desc, Jt: torch.Tensor, seed=0, script=None):
     per_row = any(desc.get(k) is not None for k in ("pref", "weights", "leak")) or desc.get("hook")
     agg = aggs.make(desc, Jt.dtype) if per_row else aggs.shared(desc, Jt.dtype)
     torch.manual_seed(int(seed))
+    _RUNS[0] += 1
+    if _RUNS[0] % 4 == 0:
+        # every fourth call hands over a matrix that REQUIRES GRAD (differentiable aggregation: the caller wants to differentiate
+        # through A): the value of A(J) must not depend on that attribute
+        Jt = Jt.detach().clone().requires_grad_(True)
     REC.start()
     if script and script.get("rand") is not None:
         REC.rand_script = [t.clone() for t in script["rand"]]
@@ -286,6 +291,9 @@ def run(desc, Jt: torch.Tensor, seed=0, script=None):
             return None, ValueError("output " + bad), rec
         return as64(out), None, rec
     return None, err, rec
+
+
+_RUNS = [0]
 
 
 def pcgrad_orders(rec, m):
